@@ -27,7 +27,7 @@ import (
 //
 //	L (id list)  : `_` (empty) or comma separated ids, `-` = rule IE without id child
 //	U (URR list) : `_` or comma separated `<id|->/<dv|->/<m|->`  (d,v,m ∈ {0,1}: DURAT, VOLUM, MNOP; `-` = IE absent)
-//	P (PDR list) : `_` or comma separated `<id|->/<u1+u2+..|>/<ueip hex|>`
+//	P (PDR list) : `_` or comma separated `<id|->/<u1+u2+..|>/<ueip hex|>[/L]` (L: the PDR ID child comes last)
 //	I (report)   : `u:<urr>:<trig hex>:<m0+...+m8>`  or  `d:<pdr>:<action hex>:<pkt hex|->`
 //	nodeid       : `4:p<k>` (IPv4 address of peer k), `6:<text>` (IPv6 literal), `f:<text>` (FQDN)
 // ---------------------------------------------------------------------------
@@ -38,6 +38,9 @@ type rule struct {
 	meth string // "" absent, else two chars d v
 	mnop string // "" absent, else "0"/"1"
 	ueip []byte
+	// PDR: the PDR ID child comes last in the grouped IE (after the PDI) instead of first — the order of the children of a
+	// grouped IE is free
+	idLast bool
 }
 
 type repItem struct {
@@ -91,7 +94,11 @@ func renderRules(key string, rs []rule) string {
 			for _, u := range r.urrs {
 				us = append(us, strconv.FormatUint(uint64(u), 10))
 			}
-			out = append(out, fmt.Sprintf("%s/%s/%s", idStr(r.id), strings.Join(us, "+"), hex.EncodeToString(r.ueip)))
+			t := fmt.Sprintf("%s/%s/%s", idStr(r.id), strings.Join(us, "+"), hex.EncodeToString(r.ueip))
+			if r.idLast {
+				t += "/L"
+			}
+			out = append(out, t)
 		case ruleKindOf(key) == "urr" && (key == "urr" || key == "curr" || key == "uurr"):
 			m, n := r.meth, r.mnop
 			if m == "" {
@@ -134,6 +141,9 @@ func parseRules(key, s string) []rule {
 			}
 			if len(f) > 2 && f[2] != "" {
 				r.ueip, _ = hex.DecodeString(f[2])
+			}
+			if len(f) > 3 && f[3] == "L" {
+				r.idLast = true
 			}
 		case ruleKindOf(key) == "urr" && (key == "urr" || key == "curr" || key == "uurr"):
 			if len(f) > 1 && f[1] != "-" {
